@@ -43,6 +43,9 @@ impl<'p> Painter<'p> {
     //@ stub src/paint.rs Painter::emit spec=paint.emit
     //@ stub src/paint.rs Painter::paint_buffered_minus_and_plus_lines spec=paint.paint_buffered_minus_and_plus_lines
     //@ stub src/paint.rs Painter::set_syntax spec=paint.set_syntax
+    // `set_syntax` as the `+++` handler calls it (its calls are redirected by a rewrite of that handler only): in the middle of
+    // a file section the language may be replaced by that of the new name, not reset to the default
+    //@ stub src/paint.rs Painter::set_syntax spec=paint.set_syntax_for_the_new_name as=set_syntax_for_the_new_name
 }
 //@ stub src/handlers/diff_header.rs parse_diff_header_line
 //@ stub src/handlers/diff_header.rs get_filename_from_marker_line
@@ -74,6 +77,7 @@ impl<'a> StateMachine<'a> {
     //@| ensures r == hdr_plus_test(self),
     //@|         r ==> self.state is DiffHeader,  // @C14,C01:a.line.is.taken.for.the.plus.header.only.directly.after.the.minus.header.never.inside.a.hunk
     //@ fn src/handlers/diff_header.rs StateMachine::handle_diff_header_plus_line spec=diff_header.handle_plus
+    //@rewrite <<<self.painter .set_syntax(>>> => <<<self.painter.set_syntax_for_the_new_name(>>>
     //@ fn src/handlers/diff_header.rs StateMachine::test_diff_header_minus_line
     //@| ensures r ==> (self.state is DiffHeader || self.source == Source::DiffUnified),  // @C01,C04,C14:a.minus.header.is.looked.for.only.in.a.diff.header.or.plain.diff.output
     //@|         r == hdr_minus_test(self),
